@@ -155,6 +155,15 @@ func VerifPassiveWindowOneHost() {
 	verifPassiveTimeline(1, verif.Bound("events_one_host", 4, 7))
 }
 
+// VerifPassiveWindowInterleaved: one host, a history long enough for the mark
+// and the failure list to drift apart: a marking burst, a straggler failure after
+// the marking window (count restarts, mark not moved), an observation that
+// expires the old mark, and further failures that complete a new window together
+// with the straggler (needs >= 5 events + the final observation for Fails = 2).
+func VerifPassiveWindowInterleaved() {
+	verifPassiveTimeline(1, verif.Bound("events_interleaved", 6, 8))
+}
+
 // VerifPassiveWindowTwoHosts: failures of one host never influence another.
 func VerifPassiveWindowTwoHosts() {
 	verifPassiveTimeline(2, verif.Bound("events_two_hosts", 3, 6))
